@@ -102,8 +102,8 @@ fn mutate_phrase(rng: &mut Rng, phrase: &str, vocab: &[String]) -> String {
 }
 
 pub fn run(ctx: &Ctx) -> Outcome {
-    let n_streams = ctx.n(200_000, 6_000_000);
-    let n_phrases = ctx.n(150_000, 4_000_000);
+    let n_streams = ctx.n(900_000, 16_000_000);
+    let n_phrases = ctx.n(700_000, 12_000_000);
     let rep = run_sharded(ctx, |w, nw, rep| {
         let ls = LangSet::new();
         let mut rng = Rng::derive(ctx.seed, "C07", w as u64);
